@@ -8,7 +8,7 @@ from checks_cfg import CHECKS
 # property id -> (technique, level text, level note, design ref)
 REGISTERED = {
     "C01": ("runtime monitoring: end-to-end differential oracle (tree equality at the system boundary) over seeded configurations, race detector on",
-            "Each run executes a seeded sample of real transfers (real client filter or direct client glue, 0-2 real relays, real trz/tsz role functions, loopback tunnel) and judges every one at the boundary: both sides' reports, names shown, destination tree vs source tree. It samples the configuration space; it does not enumerate it.",
+            "Each run executes a seeded sample of real transfers (real client filter or direct client glue, 0-2 real relays, real trz/tsz role functions, loopback tunnel) and judges every one at the boundary: both sides' reports, names shown, destination tree vs source tree. It samples the configuration space; it does not enumerate it. Extra families: the same base name twice among the selected paths (stored under distinct names, or refused before anything is written when overwriting), and a slow link on which one data acknowledgement takes 2.5 s (the sender lowers its buffer size and re-splits prepared chunks).",
             "harness wires, in-process server roles and a small family of real trz/tsz child processes (tunnel, fork mode, ulimit -n 64); fake chooser", "DESIGN.md 5/C01"),
     "C02": ("runtime monitoring: byte-level fault injection on the live connection + 'never success with different content' oracle",
             "Single and multiple byte faults (flip, delete, duplicate, insert, truncate) are injected online at logical offsets of either direction of real transfers, enumerated over every message boundary and header byte of a recorded fault-free transcript; any side reporting success, or the receiver acknowledging a file, is checked against the source bytes. A big-resume family damages (drops, duplicates, bit-flips) single lines of the prefix-hash exchange of a resume spanning two 10 MiB comparison blocks.",
@@ -23,7 +23,7 @@ REGISTERED = {
             "A real TrzszFilter is fed seeded output/input streams (binary, escape soup, near-miss triggers, zmodem/OSC52 fragments, path-like input) under all option sets and chunkings, before and after histories of transfers ending in success, failure, refusal, cancel and stop, of cancelled drags and of drags that typed an upload command the remote did not know; both directions must come out byte-identical.",
             "clipboard and chooser are faked; the real trzsz binary on a pty is covered by a small family (blob out, bytes in, exit status)", "DESIGN.md 5/C05"),
     "C06": ("runtime monitoring: independent recogniser as reference model for the real detector, filter-level ACT counting",
-            "Every generated read is judged by a hand-written recogniser of the trigger grammar and vetoes; the real detector (client and relay mode) must agree on firing and fields, its output must have the documented form, and a real filter must write exactly one ACT per genuine trigger and nothing otherwise.",
+            "Every generated read is judged by a hand-written recogniser of the trigger grammar and vetoes; the real detector (client and relay mode) must agree on firing and fields, its output must have the documented form, and a real filter must write exactly one ACT per genuine trigger and nothing otherwise. The id memory is checked at its boundary (n fresh ids, then a redraw of each of the 51 before the newest).",
             "recogniser encodes the documented per-read rules; ids repeated beyond the 49 most recent tracked ids are don't-care", "DESIGN.md 5/C06"),
     "C07": ("runtime monitoring: before/after destination snapshots (M-tree) over adversarially pre-populated destinations",
             "Real receives (both roles, protocols 1-4, archive mode) into destinations pre-populated with colliding files, directories, name.N series with gaps, type conflicts and exhausted name spaces; every pre-existing entry must be byte- and mtime-identical afterwards and every incoming path must sit under one fresh reported name.",
@@ -32,40 +32,40 @@ REGISTERED = {
             "For each relation (absent, empty, prefix, identical, longer, diverging at chosen offsets incl. the 10 MiB block boundaries) a real overwrite transfer is run in both directions and protocols 2-4; the destination must equal the source and the offset both ends agreed on (read from the wire tap) must not exceed the common prefix.",
             "10 MiB-scale pairs only in a subset (quick) / full relation (thorough)", "DESIGN.md 5/C08"),
     "C09": ("runtime monitoring: hostile-name enumeration with canary file-system snapshots around the chosen directory",
-            "Hostile names ('..' at every index, separators, absolute paths, empty elements, long names; in NAME messages and archive headers) are sent by the real sender from doctored records or by a scripted peer to both receiving roles; nothing outside the destination may be created, changed or removed and every reported path must resolve inside it.",
+            "Hostile names ('..' at every index, separators, absolute paths, empty elements, long names; in NAME messages and archive headers) are sent by the real sender from doctored records or by a scripted peer to both receiving roles; nothing outside the destination may be created, changed or removed and every reported path must resolve inside it. Name shapes include elements with trailing and leading separators ('../', '/..', '/../x').",
             "file-system snapshot of the sandbox parent, not syscall tracing, in the quick tier", "DESIGN.md 5/C09"),
     "C10": ("runtime monitoring: stop injection at every message boundary (crash-point enumeration) with bounded-return, outcome and deletion-set oracles, race detector on",
-            "A stop (keep/delete, client or server initiated) is injected before/after every message of a recorded transcript and at PRNG instants under schedule perturbation; both sides must return within the bound with a stopped outcome (or verified success), kept files must equal their sources and the deletion set must be exactly what the transfer created.",
+            "A stop (keep/delete, client or server initiated) is injected before/after every message of a recorded transcript and at PRNG instants under schedule perturbation; both sides must return within the bound with a stopped outcome (or verified success), kept files must equal their sources and the deletion set must be exactly what the transfer created. Real SIGINT/SIGTERM are also delivered to trz and tsz in the handshake window (trigger printed, nobody answered yet); scenarios include a directory followed by siblings sharing its name prefix.",
             "bounds are wall-clock with a confirm-alone rule; real SIGINT/SIGTERM delivery to a tsz process in a small family", "DESIGN.md 5/C10"),
     "C11": ("runtime monitoring: fault enumeration (silence, write errors, local file faults) x schedule perturbation with bounded-return and goroutine-leak monitors",
             "After the handshake one fault is injected per run at every message index; both roles must return within timeout+bound with an error, the peer must be told the cause when the path still works, and no goroutine of the case may remain in transfer code.",
             "liveness restated as bounded return under a 1-2 s configured timeout", "DESIGN.md 5/C11"),
     "C12": ("runtime monitoring: scripted hostile peer (field mutation at every protocol stage) with crash, memory-cap and usability monitors in child processes",
-            "A puppet peer replays well-formed transcripts with one field replaced by a boundary value at each stage; the attacked real role runs in a child with RLIMIT_AS, must not crash or allocate beyond the cap, must end with an error, and the filter must stay usable.",
+            "A puppet peer replays well-formed transcripts with one field replaced by a boundary value at each stage; the attacked real role runs in a child with RLIMIT_AS, must not crash or allocate beyond the cap, must end with an error, and the filter must stay usable. Hostile entry headers (sizes, perms, path lists, ids) are written straight into the real archive writer; every truncation of the sequences the output scanners look for ends a read.",
             "allocation cap enforced by RLIMIT_AS on a non-race child; unstructured fuzz streams are sampled", "DESIGN.md 5/C12"),
     "C13": ("runtime monitoring: unique-token conservation checker on both relay directions under yield-point schedule perturbation, race detector on",
-            "Tagged tokens flow through a real relay in both directions around scripted handshakes (confirm, cancel, malformed ACT/CFG) with arrival patterns before/inside/straddling/after the ACT and CFG lines; every yield point of relay.go and buffer.go is delayed in turn; output must be input with only the consumed line replaced, token order preserved, nothing crossing sides.",
+            "Tagged tokens flow through a real relay in both directions around scripted handshakes (confirm, cancel, malformed ACT/CFG) with arrival patterns before/inside/straddling/after the ACT and CFG lines; every yield point of relay.go and buffer.go is delayed in turn; output must be input with only the consumed line replaced, token order preserved, nothing crossing sides. Family tmux runs the relay in tmux normal mode (fake tmux, client tty = FIFO) with a per-sink token oracle.",
             "schedules are those produced by the perturbation plans over the instrumented points", "DESIGN.md 5/C13"),
     "C14": ("runtime monitoring: wire-tap comparison of ACT/CFG on both sides of each relay + end-to-end tree equality + standby/usable-again probes over transfer sequences",
             "Transfers run through 1-2 real relays for client capability sets x server option sets; ACT' and CFG' are decoded from the taps and must only narrow; after every ending the relay must be in standby, transparent, and the next transfer must work.",
             "servers are conforming (escape table only with binary offered)", "DESIGN.md 5/C14"),
     "C15": ("runtime monitoring: producer/consumer differential on real archive reader/writer with tree-equality oracle, size conservation and descriptor-count monitor",
-            "Real archiveFileReader output is checked against the announced size and fed to the real archiveFileWriter in every single cut / k-byte pieces / random cuts; the reconstructed tree must equal the source; shrinking sources must raise an error; open descriptors are sampled with GC disabled and must not grow with the entry count.",
+            "Real archiveFileReader output is checked against the announced size and fed to the real archiveFileWriter in every single cut / k-byte pieces / random cuts; the reconstructed tree must equal the source; shrinking sources must raise an error; open descriptors are sampled with GC disabled and must not grow with the entry count. Segments are handed to the writer in a reused scratch buffer that is scribbled on after each write.",
             "one case at a time per child so descriptor counts are attributable", "DESIGN.md 5/C15"),
     "C16": ("runtime monitoring: noise-grammar generators vs. the real recvLine, all two-way cuts / seeded segmentations",
             "Known payload lines are decorated with the documented tmux and Windows-console noise at every position (single item) and with random multiplicities, fed in all two-way cuts or seeded segmentations, and must be read back exactly; an inserted Ctrl-C must interrupt.",
             "noise grammars deliberately no wider than the code and its captured vectors document", "DESIGN.md 5/C16"),
     "C17": ("runtime monitoring: attacker connections against the real tunnel listener/connector with per-connection byte monitors, adoption history checked with porcupine, race detector on",
-            "Probing connections (wrong greeting, right prefix wrong id, duplicate genuine greeting, split greeting, silent, flooding) are raced against the genuine client; each must receive zero bytes and be closed unless adopted, at most one connection is adopted, in-band bytes are ignored once the tunnel is agreed, and a missing tunnel falls back in-band with the same result.",
+            "Probing connections (wrong greeting, right prefix wrong id, duplicate genuine greeting, split greeting, silent, flooding) are raced against the genuine client; each must receive zero bytes and be closed unless adopted, at most one connection is adopted, in-band bytes are ignored once the tunnel is agreed, and a missing tunnel falls back in-band with the same result. Twin cases present the right greeting on a second connection at the same moment as the genuine one (at most one adopted; adoption read from the kernel receive queue); connector 'answer-late' makes the server adopt a connection the client has given up on.",
             "loopback sockets; relay tunnel attacked the same way only in the thorough tier", "DESIGN.md 5/C17"),
     "C18": ("runtime monitoring: pause/resume injection at every message boundary with pause-window silence monitor on the wire tap",
             "A pause is begun at each gate point and resumed after lengths below, around and above the timeout; short pauses must end in success with identical files, any pause must end within the bound without false success, and between pause and resume the paused side may start at most one DATA message, everything else being keep-alives. Extra plans: server silent after the resume, server silent from before the pause (the read blocked across the resume must still time out), and a second pause of 0.9 x timeout inside a return-link stall on a slow busy uplink (must succeed).",
             "wall-clock pause lengths relative to a 3 s configured timeout; confirm-alone rule for misses", "DESIGN.md 5/C18"),
     "C19": ("runtime monitoring: scripted fake rz/sz helper and scripted server against the real zmodem bridge with hand-back probes",
-            "For each (helper behaviour, server behaviour, user action) the session must send the cancel sequence to the side still waiting and, after the server has been quiet for 1.5 s, pass a probe text through to the terminal and typed input to the server.",
+            "For each (helper behaviour, server behaviour, user action) the session must send the cancel sequence to the side still waiting and, after the server has been quiet for 1.5 s, pass a probe text through to the terminal and typed input to the server. In more than half of the cases the user types first (a letter and Ctrl-C) before the remote side says anything after the session.",
             "fake helper stands in for lrzsz; the 20 s inactivity timers only in the thorough tier", "DESIGN.md 5/C19"),
     "C20": ("runtime monitoring: assertion after every call on a recording writer with a virtual clock, child under RLIMIT_AS",
-            "Every string the real progress bar writes is measured (display width after removing zero-width sequences), its percentage parsed and checked for range and monotonicity, panics are caught per call and allocation blow-ups kill the memory-limited child; widths 1..500 are exhaustive for a fixed battery, everything else seeded.",
+            "Every string the real progress bar writes is measured (display width after removing zero-width sequences), its percentage parsed and checked for range and monotonicity, panics are caught per call and allocation blow-ups kill the memory-limited child; widths 1..500 are exhaustive for a fixed battery, everything else seeded. Transfers of 12 and 101 files are walked through completely (the counter grows by a digit), and the stop prompt opens and closes inside the step histories.",
             "width measured with go-runewidth, the project's own model", "DESIGN.md 5/C20"),
 }
 
